@@ -5,6 +5,7 @@ import re
 
 from sa import grammar
 from sa import model
+from sa import norm
 from sa import regexlang
 from sa import universe as unimod
 from sa.model import AnalysisError
@@ -211,37 +212,98 @@ def check_declared_vs_effective(repo, rep, uni):
     return n, len(eff)
 
 
+def _predicate_functions(mod, fi):
+    """The callables that may be passed as the overload predicate to
+    collect_functions in runner.call: [(params, returned expression, the
+    node that defines it)]."""
+    out = []
+    names = set()
+    for c in model.calls_in(fi.node, shallow=True):
+        if isinstance(c.func, ast.Attribute) and \
+                c.func.attr == 'collect_functions':
+            cand = list(c.args[1:2]) + [k.value for k in c.keywords
+                                        if k.arg == 'predicate']
+            for a in cand:
+                if isinstance(a, ast.Name):
+                    names.add(a.id)
+                elif isinstance(a, ast.Lambda):
+                    out.append(([x.arg for x in a.args.args], a.body, a))
+    for n in ast.walk(fi.node):
+        if isinstance(n, ast.Assign) and isinstance(
+                n.value, ast.Lambda) and any(
+                isinstance(t, ast.Name) and t.id in names
+                for t in n.targets):
+            out.append(([x.arg for x in n.value.args.args], n.value.body,
+                        n))
+        elif isinstance(n, ast.FunctionDef) and n is not fi.node and \
+                n.name in names:
+            rets = [r for r in model.walk_shallow(n)
+                    if isinstance(r, ast.Return) and r.value is not None]
+            for r in rets:
+                out.append(([x.arg for x in n.args.args],
+                            norm.subst_locals(n, r.value), r))
+    return out
+
+
+def _must_hold(expr, side, fn_node):
+    """Atoms (normalised source) that are necessarily truthy whenever
+    `expr` is truthy, on the given side of the receiver test."""
+    from sa.rules import c05
+    if isinstance(expr, ast.BoolOp):
+        sets = [_must_hold(v, side, fn_node) for v in expr.values]
+        if isinstance(expr.op, ast.And):
+            return set().union(*sets)
+        out = sets[0]
+        for x in sets[1:]:
+            out = out & x
+        return out
+    if isinstance(expr, ast.IfExp):
+        t = None
+        for e, pol in norm.atoms(norm.subst_locals(fn_node, expr.test),
+                                 True):
+            if c05.is_receiver_test(e):
+                t = (pol == side)
+        if t is True:
+            return _must_hold(expr.body, side, fn_node)
+        if t is False:
+            return _must_hold(expr.orelse, side, fn_node)
+        return _must_hold(expr.body, side, fn_node) & _must_hold(
+            expr.orelse, side, fn_node)
+    return {model.norm(expr)}
+
+
 def check_kind_predicate(repo, rep):
+    from sa.rules import c05
     mod = repo.module('yaql.language.runner')
     fi = mod.func('call')
-    ok_f = ok_m = False
-    for st in model.walk_shallow(fi.node):
-        if isinstance(st, ast.If) and 'receiver' in model.norm(st.test) and \
-                'NO_VALUE' in model.norm(st.test):
-            positive = ' is not ' not in model.norm(st.test)
-            fb = st.body if positive else st.orelse
-            mb = st.orelse if positive else st.body
-            for s in fb:
-                if isinstance(s, ast.Assign) and isinstance(
-                        s.value, ast.Lambda):
-                    attrs = {a.attr for a in ast.walk(s.value.body)
-                             if isinstance(a, ast.Attribute)}
-                    ok_f = 'is_function' in attrs and \
-                        'is_method' not in attrs
-            for s in mb:
-                if isinstance(s, ast.Assign) and isinstance(
-                        s.value, ast.Lambda):
-                    attrs = {a.attr for a in ast.walk(s.value.body)
-                             if isinstance(a, ast.Attribute)}
-                    ok_m = 'is_method' in attrs and \
-                        'is_function' not in attrs
-    rep.ob('R12c', fi.key + '/function-branch', ok_f,
-           'without a receiver the overload predicate must test '
-           'is_function (methods-only functions are never callable as '
-           'functions)', loc=mod.loc(fi.node))
-    rep.ob('R12c', fi.key + '/method-branch', ok_m,
-           'with a receiver the overload predicate must test is_method',
-           loc=mod.loc(fi.node))
+    preds = _predicate_functions(mod, fi)
+    if not preds:
+        raise AnalysisError('anchor vanished: the predicate runner.call '
+                            'hands to collect_functions')
+    for side, flag, other, label in (
+            (True, 'is_function', 'is_method', 'function-branch'),
+            (False, 'is_method', 'is_function', 'method-branch')):
+        seen = 0
+        ok = True
+        bad = ''
+        for params, ret, node in preds:
+            where = c05.receiver_side(node, fi.node)
+            if where is not None and where != side:
+                continue        # defined on the other side only
+            seen += 1
+            fd = params[0] if params else 'fd'
+            must = _must_hold(ret, side, fi.node)
+            if '%s.%s' % (fd, flag) not in must:
+                ok = False
+                bad = model.norm(ret)
+        rep.ob('R12c', fi.key + '/' + label, ok and seen > 0,
+               '%s the overload predicate must require %s (%s); the '
+               'predicate in force there is `%s`' % (
+                   'without a receiver' if side else 'with a receiver',
+                   flag, 'methods-only functions are never callable as '
+                   'functions' if side else 'functions-only definitions '
+                   'are never callable as methods', bad or 'none'),
+               loc=mod.loc(fi.node), construct=bad)
     # the two decorators set the flags they are named after
     sp = repo.module('yaql.language.specs')
     for name, want in (('method', {'is_method': True, 'is_function': False}),
@@ -525,7 +587,8 @@ def run(repo, rep):
     n1 = check_keyword_names(repo, rep, uni)
     n2, neff = check_declared_vs_effective(repo, rep, uni)
     check_kind_predicate(repo, rep)
-    n4 = check_empty_slots(repo, rep)
+    n4 = check_empty_slots(repo, rep,
+                           bound=10 if rep.tier == 'thorough' else 7)
     from sa.rules import c11
     rep.rule('R11f', 'LAZY-KEYS (shared with C11): the lazy argument set is '
              'keyed by positional index and the call\'s keyword, so a lazy '
